@@ -13,14 +13,16 @@ from ..values import Unsupported
 from ..model import norm
 
 EXPLANATION = (
-    "real_to_complex is evaluated by the term evaluator (a) for every concrete length 1..9: the Hilbert weight vector left in "
-    "the local array after all stores must be [1, 2, .., 2, (1 if N even else 2), 0, .., 0] and the derived identity "
-    "h[k] + h[N-k] == 2 (0 < k < N), h[0] == 1 is checked on the extracted table - it is what makes the real part of the analytic "
-    "signal equal the input; (b) for symbolic N on arrays of rank 1-3 and every axis: the result must be "
-    "ifft(h * fft(x, axis), axis) * exp(-i*pi*m) on the decimated index m (the quarter-rate mixer exp(-i*pi*n/2) at n = 2m, i.e. "
-    "(-1)^m: the statement's sample identity), with output length ceil(N/2) on that axis and every other extent unchanged; the "
-    "output dtype rule, the empty-input shortcut and the refusal of complex input are evaluated; the factor 2 used by the readers "
-    "for real-sampled data (seek, read, rate and length divisors) must agree with the decimation step. FFT round-off is not decided."
+    "real_to_complex is evaluated by the term evaluator (a) on explicit arrays of real symbols x[0..N-1] for every length 1..9 "
+    "(1..16 thorough) and on rank-2/3 arrays along every axis position, with exact DFT sums over roots of unity whatever transform "
+    "pair the source uses (fft/ifft, rfft/irfft, zero padding): every output element must equal (-1)^m * a[2m] where a is the "
+    "analytic signal with one-sided weights [1, 2, .., 2, (1 if N even), 0, .., 0], (-1)^m Re(out[m]) must equal x[2m], the length "
+    "must be ceil(N/2) along the converted axis and every other axis must stay in place, including arrays that are empty along "
+    "another axis (coefficients are closed-form algebraic constants compared at 40 digits); (b) for symbolic N on arrays of rank "
+    "1-3 and every axis: the result must be ifft(h * fft(x, axis), axis) * exp(-i*pi*m) on the decimated index m (the quarter-rate "
+    "mixer exp(-i*pi*n/2) at n = 2m), with output length ceil(N/2) on that axis and every other extent unchanged; the output dtype "
+    "rule, the empty-input shortcut and the refusal of complex input are evaluated; the factor 2 used by the readers for "
+    "real-sampled data (seek, read, rate and length divisors) must agree with the decimation step. FFT round-off is not decided."
 )
 
 
@@ -30,33 +32,8 @@ def check(run, prog):
     ck = Checker(run, prog)
     fi = prog.func("real_to_complex")
     run.touched(fi)
-    # ------------------------------------------------------------------ R1 weight table for concrete N
-    nmax = 9 if run.tier == "quick" else 24
-    for n in range(1, nmax + 1):
-        ev = ck.evaluator()
-        x = Num(sp.Symbol("x"), kind="array", shape=(sp.Integer(n),), tag="data", dtype=ExtV("numpy.float64"))
-        out = ck.attempt("R1", fi.where, f"real_to_complex(x), N={n}", "evaluates", lambda: ev.call(fi, [x], {}), ev=ev, allowed_guards=[])
-        if out is None:
-            continue
-        tables = [v for v in ev.last_frame.env.values() if isinstance(v, NdArr) and v.shape == (n,)]
-        tables = [t for t in tables if all(isinstance(e, Num) and e.expr.is_number for e in t.items)]
-        if len(tables) != 1:
-            ck.unk("R1", fi.where, f"weight table, N={n}", "a single explicit weight vector of length N is built", f"{len(tables)} candidate arrays")
-            continue
-        h = [e.expr for e in tables[0].items]
-        exp = [sp.Integer(0)] * n
-        exp[0] = sp.Integer(1)
-        for k in range(1, n // 2):
-            exp[k] = sp.Integer(2)
-        if n > 1:
-            exp[n // 2] = sp.Integer(2 if n % 2 else 1)
-        ck.same("R1", fi.where, f"weight table, N={n}", "h == [1, 2..2, (2 if N odd else 1), 0..0]", h == exp, found=str(h), expected=str(exp),
-                nontrivial=True)
-        ok = h[0] == 1 and all(h[k] + h[n - k] == 2 for k in range(1, n))
-        ck.same("R1", fi.where, f"weight symmetry, N={n}", "h[0] == 1 and h[k] + h[N-k] == 2 for 0 < k < N (derived from the extracted table): Re(analytic) == input",
-                ok, found=str(h), nontrivial=True)
-        if isinstance(out, Num) and out.shape:
-            ck.same("R2", fi.where, f"output length, N={n}", "ceil(N/2) samples", sp.simplify(out.shape[0] - (n + 1) // 2) == 0, found=str(out.shape))
+    # ------------------------------------------------------------------ R1 the definition itself on explicit arrays
+    explicit_definition(ck, prog, fi, "R1")
     # ------------------------------------------------------------------ R2 / R3 symbolic N, every axis
     A, B, C = (sp.Symbol(s, integer=True, positive=True) for s in "ABC")
     plans = [((N,), [0, -1]), ((N, B), [0]), ((A, N), [1, -1]), ((N, B, C), [0]), ((A, N, C), [1]), ((A, B, N), [2, -1])]
@@ -122,6 +99,112 @@ def check(run, prog):
     # ------------------------------------------------------------------ R4 factor agreement with the readers
     reader_factor_agreement(ck, prog, "R4")
     run.extra["decided_by"] = ck.how
+
+
+def const_is_zero(c):
+    """c is a closed-form constant (algebraic numbers from roots of unity): decided by 40-digit evaluation."""
+    if c == 0:
+        return True
+    try:
+        return abs(complex(sp.N(c, 40))) < 1e-28
+    except Exception:
+        return None
+
+
+def linear_zero(expr, syms):
+    """expr is linear in syms with constant coefficients: None if every coefficient is zero, else the first
+    (symbol, coefficient) that is not; 'unknown' when the expression is not of that form."""
+    expr = sp.expand(expr)
+    try:
+        poly = sp.Poly(expr, *syms)
+    except Exception:
+        return "unknown"
+    for mon, c in poly.terms():
+        z = const_is_zero(c)
+        if z is None:
+            return "unknown"
+        if not z:
+            name = "*".join(str(sy) for sy, p_ in zip(syms, mon) if p_) or "1"
+            return (name, sp.N(c, 6))
+    return None
+
+
+def explicit_definition(ck, prog, fi, rule):
+    """real_to_complex evaluated on explicit arrays of real symbols x[0..N-1] (exact DFT sums over roots of unity, any
+    algorithm the source uses: fft/ifft, rfft/irfft, zero padding), compared with the statement: length ceil(N/2);
+    (-1)^m Re(out[m]) == x[2m]; out[m] == (-1)^m * a[2m] where a is the analytic signal (spectrum h*X with the one-sided
+    weights); every other axis untouched and in place."""
+    import itertools
+    quick = ck.run.tier == "quick"
+    plans = [((n,), 0) for n in range(1, 10 if quick else 17)]
+    plans += [((2, 5), 1), ((4, 3), 0), ((3, 2, 2), 0), ((2, 2, 4), -1), ((2, 3, 2), 1), ((5, 0), 0), ((0, 5), 1)]
+    if not quick:
+        plans += [((6, 2), 0), ((2, 7), -1), ((4, 2, 3), -3), ((3, 4, 2), 1)]
+    n_done = 0
+    for shape, axis in plans:
+        tag = f"[explicit array, shape {shape}, axis={axis}]"
+        size = 1
+        for s_ in shape:
+            size *= s_
+        pos = axis % len(shape)
+        n = shape[pos]
+        ev = ck.evaluator()
+        if size == 0:
+            x = Num(sp.Symbol("x"), kind="array", shape=tuple(sp.Integer(s_) for s_ in shape), tag="data", dtype=ExtV("numpy.float64"))
+        else:
+            syms = [sp.Symbol("x" + "_".join(map(str, c)), real=True) for c in itertools.product(*[range(s_) for s_ in shape])]
+            x = NdArr(shape, [Num(sy) for sy in syms])
+            x.dtype = ExtV("numpy.float64")
+        kw = {} if (axis == 0) else {"axis": Num(axis)}
+        out = ck.attempt(rule, fi.where, "real_to_complex(x, axis) " + tag, "evaluates", lambda: ev.call(fi, [x], kw), ev=ev, allowed_guards=[])
+        if out is None:
+            continue
+        want_shape = tuple((n + 1) // 2 if i == pos else s_ for i, s_ in enumerate(shape))
+        got_shape = out.shape if isinstance(out, NdArr) else tuple(int(s_) if sp.sympify(s_).is_number else s_ for s_ in (out.shape or ())) \
+            if isinstance(out, Num) else None
+        ck.same(rule, fi.where, "output shape " + tag, "ceil(N/2) along the converted axis, every other extent unchanged and in place",
+                got_shape == want_shape, found=str(got_shape), expected=str(want_shape), nontrivial=True)
+        if size == 0 or got_shape != want_shape or not isinstance(out, NdArr):
+            n_done += 1
+            continue
+        # reference: per line along `pos`
+        w = [sp.exp(2 * sp.pi * sp.I * sp.Rational(k, n)) for k in range(n)]
+        h = [sp.Integer(0)] * n
+        h[0] = sp.Integer(1)
+        for k in range(1, n // 2):
+            h[k] = sp.Integer(2)
+        if n > 1:
+            h[n // 2] = sp.Integer(2 if n % 2 else 1)
+        bad = None
+        unknown = None
+        xin = {c: sy for c, sy in zip(itertools.product(*[range(s_) for s_ in shape]), syms)}
+        oidx = list(itertools.product(*[range(s_) for s_ in want_shape]))
+        for c, e in zip(oidx, out.items):
+            m = c[pos]
+            line = [xin[c[:pos] + (j,) + c[pos + 1:]] for j in range(n)]
+            X = [sum(line[j] * w[(-j * k) % n] for j in range(n)) for k in range(n)]
+            a2m = sum(h[k] * X[k] * w[(k * 2 * m) % n] for k in range(n)) / n
+            ref = (-1) ** m * a2m
+            r = linear_zero(e.expr - ref, syms)
+            if r == "unknown":
+                unknown = f"element {c}: {str(e.expr)[:120]}"
+                break
+            if r is not None:
+                bad = f"element {c}: coefficient of {r[0]} differs from the definition by {r[1]}"
+                break
+            r2 = linear_zero(sp.re(sp.expand((-1) ** m * e.expr, complex=True)) - line[2 * m], syms)
+            if r2 not in (None, "unknown"):
+                bad = f"element {c}: (-1)^m Re(out[m]) - x[2m] has coefficient {r2[1]} on {r2[0]}"
+                break
+        if unknown:
+            ck.unk(rule, fi.where, "values " + tag, "elements are linear forms in the input samples", unknown)
+            continue
+        ck.same(rule, fi.where, "values " + tag,
+                "out[m] == (-1)^m * analytic(x)[2m] with one-sided weights [1, 2.., (1 if N even), 0..]; (-1)^m Re(out[m]) == x[2m]; other axes untouched",
+                bad is None, found=bad, nontrivial=True)
+        n_done += 1
+    ck.run.floor(rule, "explicit-array cases decided", n_done, 12)
+    return n_done
 
 
 def reader_factor_agreement(ck, prog, rule):
